@@ -2,6 +2,7 @@ package validator
 
 import (
 	"bytes"
+	"sort"
 	"strings"
 
 	"github.com/jsightapi/jsight-schema-go-library/errors"
@@ -125,6 +126,10 @@ func (v objectValidator) requiredKeysString() string {
 	for k := range v.requiredKeys {
 		keys = append(keys, k)
 	}
+	// In the order of the schema, not in the order of the map.
+	sort.Slice(keys, func(i, j int) bool {
+		return v.requiredKeys[keys[i]] < v.requiredKeys[keys[j]]
+	})
 	return strings.Join(keys, ", ")
 }
 
